@@ -293,14 +293,14 @@ macro_rules! accept_set {
 }
 
 //@ harness: c09_accept_prio2
-//@ prop: C09,C07,C08
+//@ prop: C09,C07,C08,C11
 //@ tier: quick
 //@ cost: 2
 //@ funcs: FieldPrio2::{try_from, try_from_random, try_from_bytes}
 //@ bounds: every 4-byte string; the 3-byte prefix
 //@ asserts: accepted iff LE(bytes) < p (resp. masked value < p); short input refused; no panic
 //@ harness: c09_accept_codec_prio2
-//@ prop: C09,C07,C08
+//@ prop: C09,C07,C08,C11
 //@ tier: quick
 //@ cost: 2
 //@ funcs: <FieldPrio2 as Decode>::decode
@@ -309,14 +309,14 @@ macro_rules! accept_set {
 accept_set!(c09_accept_prio2, c09_accept_codec_prio2, FieldPrio2, u32, 4, 4293918721u32, u32::MAX);
 
 //@ harness: c09_accept_f64
-//@ prop: C09,C07,C08
+//@ prop: C09,C07,C08,C11
 //@ tier: quick
 //@ cost: 2
 //@ funcs: Field64::{try_from, try_from_random, try_from_bytes}
 //@ bounds: every 8-byte string; the 7-byte prefix
 //@ asserts: accepted iff LE(bytes) < p; short input refused; no panic
 //@ harness: c09_accept_codec_f64
-//@ prop: C09,C07,C08
+//@ prop: C09,C07,C08,C11
 //@ tier: quick
 //@ cost: 3
 //@ funcs: <Field64 as Decode>::decode
@@ -325,14 +325,14 @@ accept_set!(c09_accept_prio2, c09_accept_codec_prio2, FieldPrio2, u32, 4, 429391
 accept_set!(c09_accept_f64, c09_accept_codec_f64, Field64, u64, 8, 18446744069414584321u64, u64::MAX);
 
 //@ harness: c09_accept_f128
-//@ prop: C09,C07,C08
+//@ prop: C09,C07,C08,C11
 //@ tier: quick
 //@ cost: 4
 //@ funcs: Field128::{try_from, try_from_random, try_from_bytes}
 //@ bounds: every 16-byte string; the 15-byte prefix
 //@ asserts: accepted iff LE(bytes) < p; short input refused; no panic
 //@ harness: c09_accept_codec_f128
-//@ prop: C09,C07,C08
+//@ prop: C09,C07,C08,C11
 //@ tier: quick
 //@ cost: 3
 //@ funcs: <Field128 as Decode>::decode
@@ -341,7 +341,7 @@ accept_set!(c09_accept_f64, c09_accept_codec_f64, Field64, u64, 8, 1844674406941
 accept_set!(c09_accept_f128, c09_accept_codec_f128, Field128, u128, 16, 340282366920938462946865773367900766209u128, u128::MAX);
 
 //@ harness: c09_accept_f255
-//@ prop: C09,C07,C08
+//@ prop: C09,C07,C08,C11
 //@ tier: quick
 //@ cost: 130
 //@ funcs: Field255::{try_from, try_from_random, try_from_bytes} (constant-time comparison with the modulus)
